@@ -791,4 +791,9 @@ EXPLANATION = (
     'additionals attached at one site under a membership test. C03.ADDRNSEC (decided): decision tables of the address-answer routine (answer / additional / NSEC). C03.SUPPRESS (decided): half-TTL threshold as a linear form. '
     'Not decided: exactness of the answer set for arbitrary registries and histories [X].'
 )
+EXPLANATION_ADDENDUM = (
+    " C03.TTLCLASS also checks that each rdata parameter of a record constructor receives the service's field of that role; C03.MEMO that the record memo is keyed by every builder parameter; C03.INDEX that un-indexing uses the keys of the registered entry; C03.ADDRNSEC (decided): decision tables of the address / NSEC answers, per-service collections, no service of a shared host skipped."
+)
+EXPLANATION = EXPLANATION + EXPLANATION_ADDENDUM
+
 RULES = [index, keys, dispatch, ttlclass, memo, addl, addrnsec, suppress]
